@@ -94,7 +94,9 @@ Qed.
 Definition psim (a b : pool) : Prop := pg a = pg b /\ forall z, In z (used a) <-> In z (used b).
 Definition orel {A} (R : A -> A -> Prop) (x y : option A) : Prop :=
   match x, y with Some a, Some b => R a b | None, None => True | _, _ => False end.
-Definition esim (c c' : ccset) : Prop := orel psim (cc_v4 c) (cc_v4 c') /\ orel psim (cc_v6 c) (cc_v6 c').
+Definition esim (c c' : ccset) : Prop :=
+  orel psim (cc_v4 c) (cc_v4 c') /\ orel psim (cc_v6 c) (cc_v6 c') /\
+  cc_name c = cc_name c' /\ cc_assoc c = cc_assoc c' /\ cc_term c = cc_term c'.
 Definition msim (m m' : cidrmap) : Prop :=
   Forall2 (fun kl kl' => fst kl = fst kl' /\ Forall2 esim (snd kl) (snd kl')) m m'.
 
@@ -110,11 +112,18 @@ Proof. intros H [a|] [b|] [c|]; cbn; try tauto. apply H. Qed.
 Lemma orel_sym {A} (R : A -> A -> Prop) : (forall a b, R a b -> R b a) -> forall x y, orel R x y -> orel R y x.
 Proof. intros H [a|] [b|]; cbn; try tauto. apply H. Qed.
 Lemma esim_refl c : esim c c.
-Proof. split; apply orel_refl; apply psim_refl. Qed.
+Proof. split; [apply orel_refl; apply psim_refl|]. split; [apply orel_refl; apply psim_refl|]. repeat split. Qed.
 Lemma esim_trans a b c : esim a b -> esim b c -> esim a c.
-Proof. intros [A1 A2] [B1 B2]. split; eapply orel_trans; try eassumption; apply psim_trans. Qed.
+Proof.
+  intros (A1 & A2 & A3 & A4 & A5) (B1 & B2 & B3 & B4 & B5).
+  split; [eapply orel_trans; try eassumption; apply psim_trans|]. split; [eapply orel_trans; try eassumption; apply psim_trans|].
+  repeat split; congruence.
+Qed.
 Lemma esim_sym a b : esim a b -> esim b a.
-Proof. intros [A1 A2]. split; apply orel_sym; try assumption; apply psim_sym. Qed.
+Proof.
+  intros (A1 & A2 & A3 & A4 & A5). split; [apply orel_sym; try assumption; apply psim_sym|].
+  split; [apply orel_sym; try assumption; apply psim_sym|]. repeat split; congruence.
+Qed.
 
 Lemma Forall2_refl {A} (R : A -> A -> Prop) : (forall a, R a a) -> forall l, Forall2 R l l.
 Proof. intros H l. induction l; constructor; auto. Qed.
@@ -207,7 +216,7 @@ Proof.
 Qed.
 
 Lemma esim_pool_of c c' f : esim c c' -> orel psim (pool_of c f) (pool_of c' f).
-Proof. intros [H4 H6]. destruct f; assumption. Qed.
+Proof. intros (H4 & H6 & _). destruct f; assumption. Qed.
 
 Lemma msim_scans m m' : msim m m' -> same_scans m m'.
 Proof.
@@ -249,7 +258,8 @@ Section Loop.
                          (e = EExhausted -> forall i, i < maxc (pg pl0) -> blockedb m0 held (block (pg pl0) i) = true)
     | ADone m' (Ok x) => exists m1 c1 c2 pl1 j, msim m0 m1 /\ get_entry m1 p = Some c1 /\ pool_of c1 f = Some pl1 /\
                            PoolInv pl1 /\ pg pl1 = pg pl0 /\ j < maxc (pg pl0) /\ x = block (pg pl0) j /\
-                           in_allocated_list m1 x = false /\ cc_occupy c1 x = Ok c2 /\ m' = set_entry m1 p c2
+                           in_allocated_list m1 x = false /\ overlaps_allocated m1 x = false /\
+                           cc_occupy c1 x = Ok c2 /\ m' = set_entry m1 p c2
     | ADone _ Panic => True
     end.
 
@@ -285,7 +295,8 @@ Section Loop.
     assert (Hms1 : msim m0 m1).
     { eapply msim_trans; [exact Hms|]. subst m1. eapply msim_set_entry_self; [exact Hg|].
       assert (Hps : psim pl pl') by (split; [rewrite Hpl'; reflexivity|intros z; rewrite Hu'; tauto]).
-      subst c1. clear - Hp Hps. destruct f; cbn in *; (split; cbn; [try (rewrite Hp; exact Hps); try (apply orel_refl; apply psim_refl)|try (rewrite Hp; exact Hps); try (apply orel_refl; apply psim_refl)]). }
+      subst c1. clear - Hp Hps. destruct f; cbn in *; (split; cbn; [try (rewrite Hp; exact Hps); try (apply orel_refl; apply psim_refl)|]);
+        (split; cbn; [try (rewrite Hp; exact Hps); try (apply orel_refl; apply psim_refl)|repeat split]). }
     assert (Hpos_eq : forall t, block (pg pl) ((cur pl + t) mod pmax pl) = pos (ev + t)).
     { intros t. unfold pos. rewrite Hpg, Hpm, Hcur. f_equal. apply ring_step. exact HP. }
     destruct (in_allocated_list m1 blk || overlaps_allocated m1 blk || in_use_by_node held blk)%bool eqn:Eb.
@@ -311,8 +322,8 @@ Section Loop.
       { exists m1, c1, c2, pl', i. split; [exact Hms1|]. split; [subst m1; eapply get_set_entry_same; exact Hg|].
         split; [subst c1; apply pool_of_with_pool_same|]. split; [exact I'|].
         split; [rewrite Hpl'; exact Hpg|]. split; [rewrite <- Hpg; exact Hi|]. split; [rewrite <- Hpg; exact Hblk|].
-        apply Bool.orb_false_iff in Eb. destruct Eb as [Eb _]. apply Bool.orb_false_iff in Eb. destruct Eb as [Eb _].
-        split; [exact Eb|]. split; [exact Eo|reflexivity]. }
+        apply Bool.orb_false_iff in Eb. destruct Eb as [Eb _]. apply Bool.orb_false_iff in Eb. destruct Eb as [Eb Eb2].
+        split; [exact Eb|]. split; [exact Eb2|]. split; [exact Eo|reflexivity]. }
       split; [exact Hms1|].
       (* occupying a block of the pool itself cannot fail in the clean domain, and never reports exhaustion *)
       assert (Hcf : cf blk = f) by (rewrite Hblk; cbn; rewrite Hpg; exact Hf0).
@@ -377,7 +388,7 @@ Theorem allocate_cidr_ok_shape held m p f c pl m' x :
   allocate_cidr held m p f = (m', Ok x) ->
   exists m1 c1 c2 pl1 j, msim m m1 /\ get_entry m1 p = Some c1 /\ pool_of c1 f = Some pl1 /\
     PoolInv pl1 /\ pg pl1 = pg pl /\ j < maxc (pg pl) /\ x = block (pg pl) j /\
-    in_allocated_list m1 x = false /\ cc_occupy c1 x = Ok c2 /\ m' = set_entry m1 p c2.
+    in_allocated_list m1 x = false /\ overlaps_allocated m1 x = false /\ cc_occupy c1 x = Ok c2 /\ m' = set_entry m1 p c2.
 Proof.
   intros Hg Hp I Hf H. unfold allocate_cidr in H. rewrite Hg, Hp in H.
   assert (G : cover held p f m pl (N.iter (pmax pl + 1) (alloc_step held p f) (ARun 0 m))).
@@ -437,7 +448,8 @@ Proof.
       apply Huq in Hz. apply Hoccu in Hz; [|rewrite <- Hgeo; exact Hi]. destruct Hz as [Hz|Hz]; [exact Hz|contradiction]. }
   rewrite <- (set_entry_same m1 p c1 Hg1) at 1. rewrite <- (set_entry_twice m1 p (with_pool c1 (cf x) q) c1).
   apply msim_set_entry; [exact Hms|].
-  destruct Hge as [H4 H6]. destruct (cf x); cbn in *; split; cbn; try assumption; rewrite Hp1; exact Hps.
+  destruct Hge as (H4 & H6 & Hn & Ha & Ht). destruct (cf x); cbn in *; (split; cbn; [try assumption; rewrite Hp1; exact Hps|]);
+    (split; cbn; [try assumption; rewrite Hp1; exact Hps|repeat split; congruence]).
 Qed.
 
 (* scans for a CIDR of one family do not see the pools of the other family *)
@@ -497,7 +509,7 @@ Proof.
       pose proof (allocate_cidr_inv _ _ _ _ _ _ M1 Ea6) as M2.
       destruct r6 as [x6|e6|]; [discriminate| |discriminate].
       destruct (allocate_cidr_ok_shape held m p0 V4 c p4 m1 x4 Eg E4 (proj1 (ei_v4 c Ec p4 E4)) (proj1 (proj2 (ei_v4 c Ec p4 E4))) Ea4)
-        as (ma & c1 & c2 & pl1 & j & Hma & Hga & Hpa & Ia & Hpga & Hj & Hx4 & Hfr & Hocc & Hm1).
+        as (ma & c1 & c2 & pl1 & j & Hma & Hga & Hpa & Ia & Hpga & Hj & Hx4 & Hfr & _ & Hocc & Hm1).
       assert (Hcf4 : cf x4 = V4) by (rewrite Hx4; cbn; exact (proj1 (proj2 (ei_v4 c Ec p4 E4)))).
       assert (Hcla : clean_geom (pg pl1) = true) by (rewrite Hpga; exact (proj2 (proj2 (ei_v4 c Ec p4 E4)))).
       (* the entry at p0 in m1 and its IPv6 pool *)
@@ -506,7 +518,7 @@ Proof.
       { unfold cc_occupy in Hocc. rewrite Hcf4, Hpa in Hocc. destruct (occupy pl1 x4); [inversion Hocc; reflexivity|discriminate]. }
       assert (He1 : esim c c1) by (pose proof (msim_get _ _ p0 Hma) as Ho; rewrite Eg, Hga in Ho; exact Ho).
       assert (Hp62 : pool_of c2 V6 = pool_of c1 V6) by (rewrite Hc2; reflexivity).
-      destruct (pool_of c1 V6) as [p6a|] eqn:Ep6a; [|destruct He1 as [_ He6]; rewrite E6 in He6; cbn in Ep6a; rewrite Ep6a in He6; contradiction].
+      destruct (pool_of c1 V6) as [p6a|] eqn:Ep6a; [|destruct He1 as (_ & He6 & _); rewrite E6 in He6; cbn in Ep6a; rewrite Ep6a in He6; contradiction].
       assert (PI6 : PI V6 p6a) by (apply (pool_of_PI c2 V6 p6a (get_entry_inv m1 p0 c2 M1 Hg1)); exact Hp62).
       (* scans for IPv6 CIDRs in m1 are those of ma, hence of m0 *)
       assert (Hs1 : forall b, cf b = V6 -> blockedb m1 held b = blockedb m0 held b).
